@@ -12,6 +12,11 @@ def _c(text, ref):
 
 
 CLAIMS = {
+    "C01": _c("Bounded symbolic model checking of the real lexer, schema-coordinate lexer, the five parsing entry points and "
+              "graphql_sync: symbolic source text (all code points incl. lone surrogates) up to the stated lengths, escape/number/"
+              "block-string templates with arbitrary tails, truncation at every point, single-character substitution by any code "
+              "point, nesting depth 0..100, arbitrary variable values / operation names, and raising resolvers; the assertion is "
+              "'only GraphQLSyntaxError escapes parsing; graphql_sync returns a well-formed ExecutionResult'.", "DESIGN.md section 7, C01"),
     "C09": _c("Bounded symbolic model checking of the real Lexer / parser / strip_ignored_characters against a reference tokenizer "
               "written from the lexical grammar: every scalar-value string up to the stated length for one lexer step and for the "
               "whole token stream; ignored-sequence insertion at every token boundary, single-character substitution by any code "
